@@ -160,3 +160,41 @@ Example C07_spec_pbkw_blob_unwraps_v1_v3_nonvacuous_hyps_used :
   pw_unwrap (lc_pw toy) hdr_pw (str "pw") (spec_pwA toy (str "k3" ++ hdr_pw) (str "pw") key32' (z 32) 0 (repeat xff 16)) = Err InvalidKey /\
   pw_unwrap (lc_pw toy) hdr_pw (str "pw") (spec_pwA toy (str "k3" ++ hdr_pw) (str "pw") key32' (z 32) (2 ^ 32) (repeat xff 16)) = Err InvalidKey.
 Proof. split; vm_compute; reflexivity. Qed.
+
+(* ---- receiving direction for the Argon2 PBKW family and for seal ---- *)
+Example C07_spec_pbkw_blob_unwraps_v2_v4_nonvacuous :
+  pw_unwrap (v4_pw toy) hdr_pw (str "pw") blob_pwB = Ok key32'.
+Proof.
+  apply (C07_spec_pbkw_blob_unwraps_v2_v4 toy toy_laws (str "k4") hdr_pw (str "pw") key32' (z 16) 65536 2 1 (repeat xff 24) blob_pwB);
+    vm_compute; reflexivity.
+Qed.
+Example C07_spec_pbkw_blob_unwraps_v4_sodium_nonvacuous :
+  pw_unwrap (na_pw toy) hdr_pw (str "pw") blob_pwB = Ok key32'.
+Proof.
+  apply (C07_spec_pbkw_blob_unwraps_v4_sodium toy toy_laws hdr_pw (str "pw") key32' (z 16) 65536 2 (repeat xff 24) blob_pwB);
+    vm_compute; reflexivity.
+Qed.
+Example C07_spec_seal_blob_unseals_v3_nonvacuous :
+  v3_pke_unseal toy sk48 blob_seal3 = Ok key32 /\ lc_pke_unseal toy sk48 blob_seal3 = Ok key32.
+Proof.
+  split.
+  - apply (C07_spec_seal_blob_unseals_v3 toy toy_laws CryptoError sk48 toy_p384 key32 esk48 toy_p384); vm_compute; reflexivity.
+  - apply (C07_spec_seal_blob_unseals_v3 toy toy_laws InvalidKey sk48 toy_p384 key32 esk48 toy_p384); vm_compute; reflexivity.
+Qed.
+Example C07_spec_seal_blob_unseals_v2_v4_nonvacuous :
+  v4_pke_unseal toy key32 (spec_seal_x toy (str "k4") (x_of_seed toy key32) key32' n32) = Ok key32' /\
+  na_pke_unseal toy2 (key32 ++ toy_edpk) (spec_seal_x toy2 (str "k4") (x_of_seed toy2 key32) key32' n32) = Ok key32'.
+Proof.
+  split.
+  - apply (C07_spec_seal_blob_unseals_v2_v4 toy toy_laws (str "k4") false (fun sk => Some (x_of_seed toy sk)) key32 key32 key32' n32);
+      try reflexivity; try (vm_compute; reflexivity). discriminate.
+  - apply (C07_spec_seal_blob_unseals_v2_v4 toy2 toy2_laws (str "k4") true (fun sk => x_of_edpk toy2 (drop 32 sk)) (key32 ++ toy_edpk) key32 key32' n32);
+      try reflexivity; try (vm_compute; reflexivity). intros _. vm_compute. discriminate.
+Qed.
+Example C07_spec_seal_blob_unseals_v1_nonvacuous :
+  v1_pke_unseal toy2 (z 1) blob_seal1 = Ok key32'.
+Proof.
+  apply (C07_spec_seal_blob_unseals_v1 toy2 toy2_laws (z 1) key32' r512z
+           (be_val (flip (be_bytes 512 (be_val (v1_mask_r r512z))))) blob_seal1);
+    [vm_compute; reflexivity | vm_compute; reflexivity | vm_compute; reflexivity | vm_compute; reflexivity].
+Qed.
